@@ -39,6 +39,8 @@ func frameField(typ string) func(r abs.Result, field string) (abs.Value, bool) {
 }
 
 func runC10(c *Ctx) {
+	checkFreshResult(c, "C10.layout", "flv", "(*audioPackager).Encode", 0)
+	checkFreshResult(c, "C10.layout", "flv", "(videoPackager).Encode", 0)
 	R := c.R
 	R.Require("C10.layout", 60)
 	R.Require("C10.rates", 9)
